@@ -126,6 +126,7 @@ UNITS.update({
     "U-VERIFY": {
         "backend": "verus",
         "template": "contracts/verify.vc",
+        "search": "search-verify",
         "trusted": ["Verus 0.2026.09.13 / Z3; vstd",
                     "callee contracts: hash_to_point (U-H2P), decompress (U-CODEC), Polynomial fft/ifft/hadamard_mul/poly_sub/poly_add (U-NTT-POLY), Felt::new/balanced_value (U-FELT), Polynomial::new",
                     "table_facts (U-TAB)", "alloc: [a.to_vec(), b.to_vec()].concat() is concatenation",
@@ -138,6 +139,7 @@ UNITS.update({
     "U-CODEC": {
         "backend": "verus",
         "template": "contracts/codec.vc",
+        "search": "search-codec",
         "trusted": ["Verus 0.2026.09.13 / Z3; vstd specifications of Vec and slices",
                     "model of bit_vec::BitVec (from_bytes = MSB-first bits, len, index, get)",
                     "num_integer div_mod_floor on usize = (n / d, n % d)",
